@@ -241,8 +241,23 @@ static int new_packet(int sk_fd, int timer_fd)
         return -1;
     }
 
+    /* A complete AVTP + H.264 header must have been received */
+    if (n < (ssize_t) AVTP_FULL_HEADER_LEN) {
+        fprintf(stderr, "Dropping truncated packet\n");
+        return 0;
+    }
+
     if (!is_valid_packet(cvf)) {
         fprintf(stderr, "Dropping packet\n");
+        return 0;
+    }
+
+    /* The announced stream data must hold the H.264 header, lie inside the
+     * received datagram and fit a NAL queue entry */
+    if (Avtp_Cvf_GetStreamDataLength(cvf) < AVTP_H264_HEADER_LEN ||
+        sizeof(Avtp_Cvf_t) + Avtp_Cvf_GetStreamDataLength(cvf) > (size_t) n ||
+        get_h264_data_len(cvf) > DATA_LEN) {
+        fprintf(stderr, "Dropping packet with invalid stream data length\n");
         return 0;
     }
 
